@@ -383,7 +383,9 @@ class RainbowDQN(RLAlgorithm):
         next_states = experiences["next_obs"]
         dones = experiences["done"]
         if per:
-            weights = experiences["weights"]
+            # NOTE: The prioritised buffer delivers the importance weights as a (batch, 1) column while
+            # the element-wise loss has shape (batch,); flatten so that each loss is scaled by its own weight
+            weights = experiences["weights"].reshape(-1)
             idxs = experiences["idxs"]
             if n_step:
                 n_states = n_experiences["obs"]
